@@ -646,6 +646,14 @@ class Ref:
         import copy
 
         a = self.insts[op["inst"]]
+        if op["how"] == "copy":
+            # shallow copy: same model (so the same state), same listener objects
+            b = RefInst(self, op["as"], a.rp, {"rtc": a.rtc, "allow": a.allow, "start_value": a.start_value,
+                                              "model_tag": a.model_tag}, list(a.roles), list(a.late))
+            b.engine = a.engine
+            b.activated = a.activated
+            self.insts[op["as"]] = b
+            return {"res": None, "exc": None, "execs": [], "state": a.state}
         b = RefInst(self, op["as"], a.rp, {"rtc": a.rtc, "allow": a.allow, "start_value": a.start_value,
                                           "model_tag": op["as"]}, list(a.roles), list(a.late))
         b.engine = a.engine
